@@ -15,7 +15,7 @@ import numpy as np  # noqa: E402
 
 from checks.common import Check, Claim, bound_vars, close, close_array, scenario, sopht_modules  # noqa: E402
 
-TOL = {"float64": 1e-11, "float32": 2e-2}
+TOL = {"float64": 1e-11, "float32": 2e-4}  # absolute, rhs in [-1,1]; measured worst case of the exact-table residual: 5e-14 / 8e-7 (reported in the evidence)
 
 
 def neumann_neg_laplacian(u, dx):
@@ -83,7 +83,7 @@ def _laid_out(ctx, name, fs, layout):
 
 
 @scenario
-def fastdiag_solve(ctx, dim, shape, dx, vector, layout="c", rhs_layout="c"):
+def fastdiag_solve(ctx, dim, shape, dx, vector, layout="c", rhs_layout="c", support=None):
     _, spne, _, _ = sopht_modules()
     shape = tuple(shape)
     rt_name = "float32" if ctx.real_t == np.float32 else "float64"
@@ -95,9 +95,15 @@ def fastdiag_solve(ctx, dim, shape, dx, vector, layout="c", rhs_layout="c"):
         else:
             solver = spne.FastDiagPoissonSolver3D(grid_size_z=shape[0], grid_size_y=shape[1], grid_size_x=shape[2], dx=ctx.real_t(dx), real_t=ctx.real_t)
     fs = (3, *shape) if vector else shape
-    f = _laid_out(ctx, "rhs", fs, rhs_layout)
+    if support is None:
+        f = _laid_out(ctx, "rhs", fs, rhs_layout)
+    else:
+        # large grids: the right-hand side is arbitrary on the listed cells and zero elsewhere (the solve is linear in f)
+        f = ctx.zeros(fs)
+        for ci, c in enumerate(support):
+            f[tuple(c)] = ctx.scalar(f"rhs[{','.join(map(str, c))}]", default=0.0)
     u = _laid_out(ctx, "solution_prior", fs, layout)
-    bound_vars(ctx, f)
+    bound_vars(ctx, f if support is None else [f[tuple(c)] for c in support])
     if not ctx.sym:
         sb0 = ctx.array("spectral_buf", solver.spectral_field_buffer.shape)
         solver.spectral_field_buffer[...] = sb0
@@ -217,6 +223,16 @@ def main():
         chk.add(solver_objects_do_not_share_state, real_t=rt, dim=2, shape=(3, 4), dx1=0.2, dx2=0.37)
         chk.add(solver_objects_do_not_share_state, real_t=rt, dim=3, shape=(2, 3, 4), dx1=0.2, dx2=0.37)
         chk.add(solver_objects_do_not_share_state, real_t=rt, dim=3, shape=(3, 3, 3), dx1=0.5, dx2=0.125)
+    # the largest sizes of the statement (2..64) with a right-hand side supported on a few cells, both precisions
+    big = [((8, 64), [(0, 0), (3, 17), (7, 63), (4, 40)]), ((64, 5), [(0, 0), (31, 2), (63, 4), (40, 1)])] if chk.quick else \
+          [((8, 64), [(0, 0), (3, 17), (7, 63), (4, 40)]), ((64, 5), [(0, 0), (31, 2), (63, 4), (40, 1)]), ((64, 64), [(0, 0), (13, 50), (63, 63), (40, 7)]), ((33, 62), [(0, 0), (16, 30), (32, 61)])]
+    for sh, sup in big:
+        for rt in ("float64", "float32"):
+            chk.add(fastdiag_solve, real_t=rt, dim=2, shape=sh, dx=0.2, vector=False, support=sup)
+    for rt in ("float64", "float32"):
+        chk.add(fastdiag_solve, real_t=rt, dim=3, shape=(3, 4, 64), dx=0.2, vector=False, support=[(0, 0, 0), (1, 2, 33), (2, 3, 63)])
+    if not chk.quick:
+        chk.add(fastdiag_solve, real_t="float32", dim=2, shape=(4, 64), dx=0.2, vector=False)
     # memory layout of the caller's arrays (ghost-padded interior, Fortran order, strided view)
     for rt in rts:
         for lay in ("interior", "fortran", "strided"):
@@ -226,7 +242,7 @@ def main():
     if chk.quick:
         chk.add(fastdiag_solve, real_t="float32", dim=2, shape=(3, 4), dx=0.2, vector=False)
         chk.add(fastdiag_solve, real_t="float32", dim=3, shape=(2, 3, 4), dx=0.2, vector=True)
-    chk.bounds = [f"2D shapes {s2[:8]}... ({len(s2)}), 3D shapes ({len(s3)}), dx in {dxs}, precisions {rts}", "caller arrays C-contiguous, plus: interior of a ghost-padded allocation, Fortran order, strided view (on (3,4)/(2,3,4)/(2,3,2))", "rhs cells symbolic in [-1,1]; prior solution and spectral buffer contents arbitrary symbolic",
+    chk.bounds = [f"2D shapes {s2[:8]}... ({len(s2)}), 3D shapes ({len(s3)}), dx in {dxs}, precisions {rts}", "sizes up to 64: (8,64),(64,5),(3,4,64) (thorough also (64,64),(33,62) and a fully symbolic (4,64)) with the right-hand side arbitrary on 3-4 cells and zero elsewhere, both precisions", "caller arrays C-contiguous, plus: interior of a ghost-padded allocation, Fortran order, strided view (on (3,4)/(2,3,4)/(2,3,2))", "rhs cells symbolic in [-1,1]; prior solution and spectral buffer contents arbitrary symbolic",
                   f"tolerances (absolute, rhs in [-1,1]): {TOL}"]
     chk.outside = ["sizes above the enumerated ones (the property's 'sizes 2..64')", "rounding inside solve() (exact product of the concrete float eigen-tables)", "LAPACK (its results are data)"]
     chk.assumptions = ["eigen-data returned by numpy.linalg.eig has exactly zero imaginary part (checked concretely each run); complex arithmetic with zero imaginary parts is modelled as real arithmetic",
